@@ -1449,7 +1449,7 @@ func run(c *vf.Ctx) {
 		return
 	}
 	c.SetRule("one evaluation = one operation executed on the real view/wrapper tree and compared with the ordered-map model (return values, errors, callback sequences, debug callbacks); histories are generated from the seed: root + random WithRealm/WithExtendedRealm chains over the realm alphabet {\"\",a,ab,a\\xff,\\xff,b} (and two-word concatenations), each view wrapped by 0-3 of flushkv / debug (all commands, filtered, nil callback); keys, prefixes and values come from the same alphabet, half of the keys are chosen among keys present in the view; every argument is a slice of a harness-owned array – exact-size, with 1-8 bytes of canary-filled spare capacity, or carved out of a per-history shared realm table / key table (WithRealm realms as table[:n], so sibling views hold overlapping slices of one array) – and all such arrays are compared after every library call; buffers passed to Set / a finished batch are scribbled and reused for later arguments; a Close is placed in the second half of 60% of the histories and followed by every operation kind. distinct_nontrivial counts distinct histories (hash of the executed step list) that had a nested realm pair, at least one Get hit, one iteration delivering >= 2 entries and one value read through a view other than the writing one")
-	nHist := c.Pick(20000, 100000)
+	nHist := c.Pick(20000, 1000000)
 	nSteps := c.Pick(60, 80)
 	workers := runtime.NumCPU()
 	var mu sync.Mutex
